@@ -208,13 +208,18 @@ def _function_over_two_vars(repr_func, raw_func, x, y, out=None, out_like=None, 
     if method == 'repr' or _scaled or n_frac is None:
         raw = False
         x_val, y_val = _repr_val(x), _repr_val(y)
-        # (a dot product accumulates: the bits of the number of terms count too)
-        _acc_bits = max(int(np.size(x_val)), int(np.size(y_val)), 1).bit_length() if getattr(repr_func, '__name__', '') == 'dot' else 0
         if getattr(repr_func, '__name__', '') in ('add', 'subtract', 'multiply', 'dot') \
-                and (x.n_word - min(x.n_frac, 0)) + (y.n_word - min(y.n_frac, 0)) + _acc_bits >= 63 \
                 and all(isinstance(v, (np.ndarray, np.generic)) and v.dtype.kind == 'i' for v in (x_val, y_val)):
-            # integer values whose sum or product may leave the 64 bits integers of numpy (which wrap around silently): python integers
-            x_val, y_val = np.asarray(x_val).astype(object), np.asarray(y_val).astype(object)
+            # integer values whose sum or product may leave the 64 bits integers of numpy (which wrap around silently): python integers.
+            # The bits are counted on the values themselves (the value of a scaled operand is not bounded by its word); a dot product
+            # accumulates: the bits of the number of terms of one sum count too
+            _bits = 0
+            for v in (x_val, y_val):
+                _bits += max(abs(int(np.max(v))), abs(int(np.min(v)))).bit_length() if np.size(v) else 0
+            if getattr(repr_func, '__name__', '') == 'dot':
+                _bits += int(np.shape(x_val)[-1] if np.ndim(x_val) else 1).bit_length()
+            if _bits >= 62:
+                x_val, y_val = np.asarray(x_val).astype(object), np.asarray(y_val).astype(object)
         val = repr_func(x_val, y_val, **kwargs)
     elif method == 'raw':
         raw = True
